@@ -1072,6 +1072,9 @@ func (m *gModel) check(evs []pEv, conc int, finished bool, errNil bool, errClass
 					c.checkExitCode(in, e, got, ev.Seq)
 				}
 			}
+			if got, has := ev.Extra["DYN"]; has && got != "dyn-"+in.T.Name {
+				c.add("C02", "callee_var_mismatch|dynamic_var", "instance %s sees DYN=%q, its own dynamic variable evaluates to %q", in.P, got, "dyn-"+in.T.Name)
+			}
 			if got, has := ev.Extra["M"]; has && got != in.M {
 				c.add("C02", "callee_var_mismatch|wildcard_match", "instance %s of a wildcard task sees MATCH=%q, it was called with %q", in.P, got, in.M)
 			}
